@@ -103,7 +103,9 @@ def run(ctx):
                     check("TIML", u, v, "descr", p, sec)
         # the documented special forms
         for name, val in (("NAME", "VALUE"), ("LOC", "12-34-56W5M"), ("A B", "x y"), ("é", "1.5"), ("REMARK", "Depth ref: KB"),
-                          ("TIME", "13:45:00"), ("R", "a:b:c"), ("NOTE", "see 12:30 log: run 2")):
+                          ("TIME", "13:45:00"), ("R", "a:b:c"), ("NOTE", "see 12:30 log: run 2"),
+                          # a period in the value, followed later by a colon (dotted dates, decimals, versions + clock times)
+                          ("RUN DATE", "13.01.2001 14:30"), ("START", "1.5 at 12:00"), ("REV", "v1.2: final"), ("X", "a.b:c")):
             for _ in range(4):
                 p = [rng.choice(PADS) for _ in range(4)]
                 line = p[0] + name + p[1] + ":" + p[2] + val + p[3]
